@@ -2,6 +2,7 @@ package main
 
 import (
 	"fmt"
+	"go/ast"
 	"go/constant"
 	"go/types"
 	"strconv"
@@ -285,6 +286,24 @@ func (env *specEnv) lookupIdent(name string) (sval, bool) {
 			}
 			if t, ok := env.fr.vals[v]; ok && !strings.HasPrefix(t, "tuple:") {
 				return sval{t: t, typ: v.Type()}, true
+			}
+		}
+	}
+	// contract applied at a call site: a source-level local of the callee denotes some (unknown) value
+	if env.fr == nil && env.atFresh != nil && env.fn != nil {
+		if v, ok := env.atFresh["local:"+name]; ok {
+			return v, true
+		}
+		for _, b := range env.fn.Blocks {
+			for _, ins := range b.Instrs {
+				if d, ok := ins.(*ssa.DebugRef); ok && !d.IsAddr {
+					if id, ok := d.Expr.(*ast.Ident); ok && id.Name == name {
+						c := vc.freshAlways("callee."+name, vc.sortOf(d.X.Type()))
+						v := sval{t: c, typ: d.X.Type()}
+						env.atFresh["local:"+name] = v
+						return v, true
+					}
+				}
 			}
 		}
 	}
@@ -757,10 +776,28 @@ func (env *specEnv) evalAt(a *EAt) sval {
 		return v
 	}
 	rec := env.fr.findDominatingCall(a.Pat)
-	if rec == nil {
-		env.fail("@%s: no dominating call matches", a.Pat)
-	}
 	var tup []sval
+	if rec == nil {
+		// a matching call exists but does not dominate this point: its result is an arbitrary value here
+		var any *CallRec
+		for _, r := range env.eng.callLog {
+			if patMatches(a.Pat, r.Name) {
+				any = r
+			}
+		}
+		if any == nil {
+			env.fail("@%s: no call matches", a.Pat)
+		}
+		sig := callSig(any.Instr)
+		for i := 0; i < sig.Results().Len(); i++ {
+			t := sig.Results().At(i).Type()
+			tup = append(tup, sval{t: env.eng.vc.freshAlways("at.nondom", env.eng.vc.sortOf(t)), typ: t})
+		}
+		if len(tup) == 1 {
+			return tup[0]
+		}
+		return sval{tup: tup, typ: sig.Results()}
+	}
 	sig := callSig(rec.Instr)
 	for i, r := range rec.Results {
 		tup = append(tup, sval{t: r, typ: sig.Results().At(i).Type()})
@@ -896,6 +933,38 @@ func (env *specEnv) evalCall(c *ECall) sval {
 			vc.assume(fmt.Sprintf("(and (not (select %s %s)) (not (select %s %s)))", da, w, db, w))
 			vc.assumes["finiteness witness: some string lies outside any two finite Go sets"] = true
 			return sval{t: w, typ: tString}
+		case "atcall":
+			// atcall(@pattern, e): e evaluated in the state right after the dominating call returned
+			at, ok := c.Args[0].(*EAt)
+			if !ok || env.fr == nil {
+				env.fail("atcall(@pattern, e) needs a call pattern and a code context")
+			}
+			rec := env.fr.findDominatingCall(at.Pat)
+			if rec == nil || rec.After == nil {
+				env.fail("atcall(@%s): no dominating call matches", at.Pat)
+			}
+			sub := *env
+			sub.st = rec.After
+			v := sub.eval(c.Args[1])
+			return sval{t: sub.rv(v), typ: v.typ}
+		case "someTrue":
+			// someTrue(@pattern): on the current path some call matching the pattern was executed and returned true
+			at, ok := c.Args[0].(*EAt)
+			if !ok || env.fr == nil {
+				env.fail("someTrue(@pattern) needs a call pattern and a code context")
+			}
+			var ds []Term
+			for _, r := range eng.callLog {
+				if patMatches(at.Pat, r.Name) && len(r.Results) > 0 {
+					ds = append(ds, and(r.PC, r.Results[0]))
+				}
+			}
+			if len(ds) == 0 {
+				env.fail("someTrue(@%s): no call matches", at.Pat)
+			}
+			return sval{t: or(ds...), typ: tBool}
+		case "now":
+			return sval{t: eng.get(env.st, eng.comp("$now", "Int")), typ: tInt}
 		case "loopentry":
 			if env.loopEntry == nil {
 				env.fail("loopentry() is only available in loop invariants")
